@@ -180,7 +180,8 @@ class CallGen:
         # conv_round shifts by its second argument: only called with literal amounts (FIXED_CALLERS), never with data
         bundled = [dict(v, name=k) for k, v in cref.BUNDLED.items() if k != "conv_round"] if allow_bundled else []
         pool = user * 3 + bundled
-        form = ch.weighted([("single", 5), ("two_calls", 5), ("parked", 4), ("arg_call", 3), ("three_calls", 2), ("cond_calls", 1)], "cform")
+        form = ch.weighted([("single", 5), ("two_calls", 5), ("parked", 4), ("arg_call", 3), ("three_calls", 2), ("cond_calls", 1),
+                            ("const_cond_calls", 2)], "cform")
         stmts = []
         srcs = ["RssV", "RttV"]
 
@@ -203,7 +204,7 @@ class CallGen:
             stmts.append(("decl", f["ret"], out, call(f, 0)))
             outs = [(out, f["ret"])]
             uses = [f["name"]]
-        elif form in ("two_calls", "three_calls", "cond_calls"):
+        elif form in ("two_calls", "three_calls", "cond_calls", "const_cond_calls"):
             f = ch.choice(pool, "f")
             R = f["ret"]
             same = [g for g in pool if g["ret"] == R]
@@ -213,6 +214,13 @@ class CallGen:
             op = ch.choice(["+", "-", "^", "|", "&"], "op")
             if form == "cond_calls":
                 e = ("cond", ("cmp", "<", ("reg", "RssV", ("s", 64)), ("reg", "RttV", ("s", 64))), c1, c2)
+            elif form == "const_cond_calls":
+                # a compile-time constant condition: the compiler folds the ?: and drops the dead arm's call
+                h = ch.choice(same, "h")
+                uses.append(h["name"])
+                e = ("cond", ("lit", ch.choice([0, 1], "constc"), ("s", 32)), c1, c2)
+                third = call(h, 4 if self.cfg == "A" else 1)
+                e = ("bin", op, e, third) if ch.chance(1, 2, "side") else ("bin", op, third, e)
             else:
                 e = ("bin", op, c1, c2)
                 if form == "three_calls":
